@@ -104,7 +104,9 @@ func buildPGP(primary *pgpKeyMat, ids []pgpIdentity, subs []pgpSubkey, unhashedI
 		sig := makeSig(primary, pgpSigSpec{sigType: 0x13, created: id.sigCreated, flags: id.flags, lifetime: id.lifetime, issuerID: kid, unhashedIssuer: unhashedIssuer},
 			append(frameKey(primary.body), frameUID(id.name)...))
 		so := add(2, sig.body)
-		b.regions = append(b.regions, pgpRegion{"hashed", fmt.Sprintf("id%d", i), so + sig.hashedOff[0], so + sig.hashedOff[1]},
+		// the signed portion of the signature: version, type, algorithms and hashed-area length, then the hashed subpackets
+		b.regions = append(b.regions, pgpRegion{"hashed", fmt.Sprintf("id%d", i), so, so + sig.hashedOff[0]},
+			pgpRegion{"hashed", fmt.Sprintf("id%d", i), so + sig.hashedOff[0], so + sig.hashedOff[1]},
 			pgpRegion{"prefix", fmt.Sprintf("id%d", i), so + sig.prefixOff, so + sig.prefixOff + 2})
 		b.regions = append(b.regions, mpiValueRegions(fmt.Sprintf("id%d", i), sig.body, sig.mpiOff, so)...)
 		exp := "never"
@@ -125,7 +127,8 @@ func buildPGP(primary *pgpKeyMat, ids []pgpIdentity, subs []pgpSubkey, unhashedI
 		}
 		sig := makeSig(primary, spec, signed)
 		so := add(2, sig.body)
-		b.regions = append(b.regions, pgpRegion{"hashed", fmt.Sprintf("sub%d", i), so + sig.hashedOff[0], so + sig.hashedOff[1]},
+		b.regions = append(b.regions, pgpRegion{"hashed", fmt.Sprintf("sub%d", i), so, so + sig.hashedOff[0]},
+			pgpRegion{"hashed", fmt.Sprintf("sub%d", i), so + sig.hashedOff[0], so + sig.hashedOff[1]},
 			pgpRegion{"prefix", fmt.Sprintf("sub%d", i), so + sig.prefixOff, so + sig.prefixOff + 2})
 		b.regions = append(b.regions, mpiValueRegions(fmt.Sprintf("sub%d", i), sig.body, sig.mpiOff, so)...)
 		exp := "never"
@@ -269,7 +272,11 @@ func init() { gens["C11"] = genC11 }
 // single-bit flips inside every signed region and signature value
 func genC11(tier string, r *rng) {
 	fs := pgpKeyFactories()
+	defer func() { pgpSigHash = 8 }()
 	for pi, f := range fs {
+		// signatures over SHA-256, SHA-1, SHA-512, MD5, SHA-384: a flipped hash octet then lands on linked, unlinked
+		// (RIPEMD-160) and unknown digests
+		pgpSigHash = []byte{8, 2, 10, 2, 8, 1, 9}[pi%7]
 		primary := f(1700000000)
 		ids := []pgpIdentity{{name: "Alice Example <alice@example.org>", flags: 3, sigCreated: 1700000100, lifetime: -1},
 			{name: "Bob <bob@example.com>", flags: 1, sigCreated: 1700000200, lifetime: 86400 * 365}}
